@@ -18,7 +18,8 @@ def items(tier):
         # reader and package-level entry points: every 5th entry in the quick tier, all in the thorough tier
         if tier != "quick" or idx % 5 == 0:
             for api in ["MatchReader", "PkgMatch", "PkgMatchString"]:
-                out.append({"id": "C01|%s|%s|L2|%s" % (p, api, alpha or "full"), "Harness": "C01", "Pattern": p, "API": api, "L": 2, "Alpha": alpha, "strategy": strat})
+                # (the package-level functions compile inside the run: larger step budget)
+                out.append({"id": "C01|%s|%s|L2|%s" % (p, api, alpha or "full"), "Harness": "C01", "Pattern": p, "API": api, "L": 2, "Alpha": alpha, "strategy": strat, "step_limit": 60000000})
         for pre, post in corpus.windows(p):
             out.append({"id": "C01|%s|Match|L%d|%s|w%s+%s" % (p, maxL, alpha or "full", pre.encode().hex(), post.encode().hex()), "Harness": "C01", "Pattern": p, "API": "Match", "L": maxL, "Alpha": alpha, "Pre": pre, "Post": post, "strategy": strat})
     return out
